@@ -788,4 +788,53 @@ theorem WInv.nonempty {c : Ctx} (hw : WInv c) (hs : c.phase = .sleep)
   have : ((0 : Nat) : Rat) = 0 := rfl
   grind
 
+/-- A self-driven debt-driven collection operation executed outside callbacks in a sleeping state
+    with positive debt wakes the collector: the oldest step it appends is `'W'`. -/
+theorem collect_wakes {a : Arena} (h : Inv a) (hcb : a.cb = none) (hs : a.ctx.phase = .sleep)
+    (hd : 0 < a.ctx.metrics.allocationDebt) (m : Method) (hm : (Arena.methodArgs m).1 = .payDebt)
+    (k : Cont) (fault : TraceFault) :
+    ∃ new, (a.step (.collect m k fault none)).1.ctx.steps = new ++ 'W' :: a.ctx.steps := by
+  have key : ∀ (b : Arena) (fin : Bool), Inv b → b.marked = false → b.cb = none →
+      b.ctx.phase = .sleep → 0 < b.ctx.metrics.allocationDebt →
+      ∃ new, (b.stepBody fin (.collect m k fault none)).1.ctx.steps = new ++ 'W' :: b.ctx.steps := by
+    intro b fin hb hbm hbcb hbs hbd
+    have h0 : CInv b.ctx b.root [] := by have := hb.cinv; rw [hb.cbTemps hbcb] at this; exact this
+    obtain ⟨new1, e1⟩ := doCollection_wakes (root := b.root) (stop := (Arena.methodArgs m).2)
+      (fault := fault) h0 hbs hbd
+    simp only [Arena.stepBody]
+    split
+    · rename_i hsome; rw [hbcb] at hsome; simp at hsome
+    · have hso : Arena.splitOracle none k m = (none, none) := rfl
+      rw [hso]
+      cases hr : b.runCollector (Arena.methodArgs m).1 (Arena.methodArgs m).2 fault none with
+      | none => simp [Arena.runCollector] at hr
+      | some res =>
+        obtain ⟨c, ex⟩ := res
+        have hc := runCollector_inv hb hbcb hr
+        have hi := hb.afterCollect hbm hbcb hc
+        have e1' : c.steps = new1 ++ 'W' :: b.ctx.steps := by
+          simp only [Arena.runCollector, hm, Option.some.injEq] at hr
+          rw [hr] at e1; exact e1
+        simp only
+        have mk : ∀ o2, ∃ new, (({ b with ctx := c, cover := [] } : Arena).marked? k o2).1.ctx.steps
+            = new ++ 'W' :: b.ctx.steps := by
+          intro o2
+          obtain ⟨new2, e2, _⟩ := marked?_cyc hi hbcb k o2
+          exact ⟨new2 ++ new1, by rw [e2]; show new2 ++ c.steps = _; rw [e1', List.append_assoc]⟩
+        split
+        · exact ⟨new1, e1'⟩
+        · split
+          · exact ⟨new1, e1'⟩
+          · cases m with
+            | markDebt => exact mk none
+            | finishMarking => exact mk none
+            | collectDebt => exact ⟨new1, e1'⟩
+            | cycleDebt => exact ⟨new1, e1'⟩
+            | finishCycle => exact ⟨new1, e1'⟩
+  have hnot : (!a.alive) = false := by rw [h.alive]; rfl
+  unfold Arena.step
+  rw [hnot]
+  simp only [Bool.false_eq_true, if_false]
+  exact key _ a.marked h.unmark rfl hcb hs hd
+
 end GcArena
